@@ -16,7 +16,7 @@ import time
 
 VERIF = os.path.dirname(os.path.dirname(os.path.dirname(os.path.abspath(__file__))))
 REPO = os.environ.get("VERIF_REPO", "/repo")
-BUILD = os.path.join(VERIF, ".build")
+BUILD = os.environ.get("VERIF_BUILD_DIR", os.path.join(VERIF, ".build"))
 COQ = os.path.join(VERIF, "coq")
 SCRATCH = os.environ.get("VERIF_SCRATCH", "/var/tmp/verif-scratch")
 NCPU = 16
